@@ -307,6 +307,7 @@ def main(argv=None):
     if args.replay:
         with open(args.replay) as f:
             rp = json.load(f)
+        prop = rp.get('property', prop)
         if rp.get('check') and rp['check'] != args.check:
             # a property can be served by more than one check module; the replay file knows which one produced it
             args.check = rp['check']
